@@ -270,6 +270,42 @@ class Ctx:
                 ob.status = "proved"
                 ob.backend = "z3-incremental"
                 ob.time_s = time.time() - t0
+                return
+        except z3.Z3Exception:
+            pass
+        import os as _os
+        if _os.environ.get("VERIF_DUMP") and _os.environ["VERIF_DUMP"] in oid:
+            sd = z3.Solver()
+            for f in self.pc:
+                sd.add(f)
+            sd.add(z3.Not(goal))
+            open("/tmp/w/dump_%s_%d.smt2" % (oid.replace("/", "_")[-60:], len(self.obligations)), "w").write(sd.to_smt2())
+        # cone of influence: only the quantifier-free facts that share symbols with the goal (2 rounds).
+        # Fewer hypotheses -> `unsat` is still a proof of the full obligation.
+        try:
+            t0 = time.time()
+            g = z3.simplify(goal)
+            syms = _consts(g)
+            facts = [f for f in self.pc if not _has_quantifier(f)]
+            fsyms = [_consts(f) for f in facts]
+            chosen = set()
+            for _ in range(2):
+                for k, fs in enumerate(fsyms):
+                    if k not in chosen and fs & syms and len(fs) <= 12:
+                        chosen.add(k)
+                grown = set(syms)
+                for k in chosen:
+                    grown |= fsyms[k]
+                syms = grown
+            s2 = z3.Solver()
+            s2.set("timeout", 2000)
+            for k in chosen:
+                s2.add(facts[k])
+            s2.add(z3.Not(g))
+            if s2.check() == z3.unsat:
+                ob.status = "proved"
+                ob.backend = "z3-cone"
+                ob.time_s = time.time() - t0
         except z3.Z3Exception:
             pass
 
@@ -293,6 +329,38 @@ class Ctx:
 
     def is_positive(self, expr):
         return _known_positive(self, expr)
+
+
+def _consts(e):
+    out, seen, stack = set(), set(), [e]
+    while stack:
+        t = stack.pop()
+        i = t.get_id()
+        if i in seen:
+            continue
+        seen.add(i)
+        if z3.is_quantifier(t):
+            stack.append(t.body())
+            continue
+        if z3.is_app(t):
+            if t.num_args() == 0 and t.decl().kind() == z3.Z3_OP_UNINTERPRETED:
+                out.add(t.decl().name())
+            stack.extend(t.children())
+    return out
+
+
+def _has_quantifier(e):
+    seen, stack = set(), [e]
+    while stack:
+        t = stack.pop()
+        i = t.get_id()
+        if i in seen:
+            continue
+        seen.add(i)
+        if z3.is_quantifier(t):
+            return True
+        stack.extend(t.children())
+    return False
 
 
 def _mentions(e, vars_):
